@@ -150,7 +150,9 @@ namespace options
 
                     while (std::getline(str, element, ';'))
                     {
-                        update_value(element);
+                        // the elements are the values themselves, not command line tokens
+                        dirty_ = true;
+                        value_.push_back(element);
                     }
 
                     return;
